@@ -24,6 +24,8 @@ pub enum Op {
     /// server traffic followed by a client read
     ServerFastPath,
     ServerSlowPath,
+    /// the server deactivates the session and activates it again (deactivate-all, then a complete activation)
+    Reactivate,
 }
 
 pub struct Case {
@@ -60,6 +62,13 @@ pub fn make_case(class: u64, idx: u64, seed: u64) -> Case {
                 });
             }
         }
+        2 => {
+            // every keyboard layout the client can be configured for x every scancode 0..0x1ff, pressed and released
+            for code in 0u16..0x200 {
+                ops.push(Op::Key { code, down: true });
+                ops.push(Op::Key { code, down: false });
+            }
+        }
         _ => {
             // now and then more submissions in one session than a 16-bit counter holds
             let n = if idx % 1000 == 999 { 65_536 + r.range(1, 500) as usize } else { r.range(1, 200) as usize };
@@ -77,12 +86,18 @@ pub fn make_case(class: u64, idx: u64, seed: u64) -> Case {
                     5 | 6 | 7 => Op::Key { code: if r.chance(1, 3) { 0xE000 | r.below(256) as u16 } else { r.edge16() }, down: r.chance(1, 2) },
                     8 => Op::Refused,
                     9 | 10 => Op::ServerFastPath,
-                    _ => Op::ServerSlowPath,
+                    _ => {
+                        if r.chance(1, 4) {
+                            Op::Reactivate
+                        } else {
+                            Op::ServerSlowPath
+                        }
+                    }
                 });
             }
         }
     }
-    Case { ops, class: if class == 0 { "value-sweeps" } else { "random-sequences" }, gen: [class, idx, seed], user_id: crate::gen::user_id(&mut r), share_id: crate::gen::share_id(&mut r) }
+    Case { ops, class: ["value-sweeps", "random-sequences", "layouts-x-scancodes"][class as usize], gen: [class, idx, seed], user_id: crate::gen::user_id(&mut r), share_id: crate::gen::share_id(&mut r) }
 }
 
 pub fn check_case(c: &Case, rep: &mut Report) {
@@ -103,8 +118,11 @@ pub fn check_case(c: &Case, rep: &mut Report) {
     // fails with WouldBlock / TimedOut at a frame boundary and consumes nothing); input goes on as before
     let polling = c.gen[1] % 8 == 2;
     let plain = short_writes || c.gen[1] % 4 == 3 || polling;
+    // the keyboard layout the client is configured for: all of them in turn in the layouts class, else drawn per case
+    let layout = if c.class == "layouts-x-scancodes" { crate::client::LAYOUTS[(c.gen[1] % 19) as usize] } else { crate::client::LAYOUTS[(fnv(format!("{:?}", c.gen).as_bytes()) % 19) as usize] };
+    rep.set("keyboard_layouts", format!("{:#x}", layout));
     let opened = mon::guarded(|| -> Result<session::Session, String> {
-        let mut s = if plain { session::open_plain(profile.clone(), false)? } else { session::open_real(profile.clone(), false)? };
+        let mut s = if plain { session::open_plain_layout(profile.clone(), false, layout)? } else { session::open_real_layout(profile.clone(), false, layout)? };
         s.activate()?;
         Ok(s)
     });
@@ -159,6 +177,27 @@ pub fn check_case(c: &Case, rep: &mut Report) {
                 s.push("fp", &proto::fp_update(1, &proto::bitmap_update_body(&[rc])), Wrap::FastPath { sec: 0, long: false });
                 let _ = s.read_collect();
                 None
+            }
+            Op::Reactivate => {
+                // a complete deactivation-reactivation sequence; the client answers it (confirm-active, finalization): those
+                // frames are the activation's, not input
+                s.server.with(|sv| {
+                    let p = sv.profile.clone();
+                    let cur = sv.next_share_id;
+                    sv.send("deactivate-all", &proto::deactivate_all(&p, cur), Wrap::Sdi);
+                    sv.send_demand_active(cur);
+                });
+                let mut ok = true;
+                for _ in 0..6 {
+                    ok &= matches!(mon::guarded(|| s.client.read(|_| {}).is_ok()), Ok(true));
+                }
+                if !ok {
+                    viol.push(("C11/reactivation-failed".into(), format!("op {}: the client did not come through a deactivation-reactivation sequence", i)));
+                    break;
+                }
+                rep.hist("reactivated");
+                nev = s.server.with(|sv| sv.events.len());
+                continue;
             }
             Op::ServerSlowPath => {
                 let p = s.profile.clone();
@@ -335,7 +374,7 @@ pub fn run(cfg: &Cfg) -> Report {
     let seed = cfg.seed;
     let mut total = Report::new();
     // class 0: 3 sweeps x 16 slices of 4096 values = every x, every y, every scancode (both tiers; thorough repeats with other seeds)
-    let plan: Vec<(u64, u64)> = vec![(0, if cfg.quick() { 48 } else { 48 * 48 }), (1, cfg.n(3_000, 600_000))];
+    let plan: Vec<(u64, u64)> = vec![(0, if cfg.quick() { 48 } else { 48 * 48 }), (1, cfg.n(3_000, 600_000)), (2, if cfg.quick() { 19 } else { 19 * 4 })];
     for (class, n) in plan {
         if !cfg.wants(class) {
             continue;
